@@ -155,3 +155,9 @@ pub fn control_r9_8_find(d: &mut Dev, bufs: &mut [[u8; 4]; 3]) -> bool {
 pub fn control_n8_units(name: &str, units: &[u16]) -> bool {
     name.len() == units.len()
 }
+
+/// reference value (not a control): the variant of `std::io::ErrorKind` that means "interrupted", as this toolchain
+/// numbers it - rule R9.9 compares the library's retry predicate with it
+pub fn control_ref_errorkind_interrupted() -> std::io::ErrorKind {
+    std::io::ErrorKind::Interrupted
+}
